@@ -19,7 +19,12 @@ import (
 // ---- deterministic PRNG (SplitMix64); every random choice derives from one state
 type Rng struct{ s uint64 }
 
-func NewRng(seed uint64) *Rng { return &Rng{s: seed*0x9E3779B97F4A7C15 + 0x1234567} }
+func NewRng(seed uint64) *Rng {
+	// seed*γ would make seed k+1 the stream of seed k shifted by one draw (U64 also steps by γ)
+	r := &Rng{s: seed * 0xD1342543DE82EF95}
+	r.s = r.U64() ^ 0x1234567
+	return r
+}
 func (r *Rng) U64() uint64 {
 	r.s += 0x9E3779B97F4A7C15
 	z := r.s
